@@ -30,21 +30,39 @@ Proof.
   - pose proof (rel_core_params s). tauto.
 Qed.
 
+Lemma acq_body_params s t :
+  init0 (fst (acq_body s t)) = init0 s /\ maxv (fst (acq_body s t)) = maxv s /\ fast (fst (acq_body s t)) = fast s /\
+  extra (fst (acq_body s t)) = extra s /\ (exists l, enq (fst (acq_body s t)) = enq s ++ l) /\
+  match snd (acq_body s t) with
+  | RDone => held (fst (acq_body s t)) = t :: held s
+  | RBlocked => held (fst (acq_body s t)) = held s
+  | _ => False
+  end.
+Proof.
+  unfold acq_body.
+  destruct (value s), (waiters s); try destruct (fast s) eqn:E; cbn; rewrite ?E;
+    repeat split; try reflexivity; try (exists []; now rewrite app_nil_r); eexists; reflexivity.
+Qed.
+
 Lemma step_params s o :
   init0 (fst (step s o)) = init0 s /\ maxv (fst (step s o)) = maxv s /\ fast (fst (step s o)) = fast s.
 Proof.
-  destruct o as [t|t|t|t|t]; cbn [step].
+  destruct o as [t|t|t|t|t|t|t]; cbn [step].
   - destruct (is_idle (phase_of s t)); cbn [negb fst]; [|tauto].
-    destruct (value s), (waiters s); try destruct (fast s) eqn:E; cbn; rewrite ?E; tauto.
+    pose proof (acq_body_params s t). tauto.
   - destruct (is_idle (phase_of s t)); cbn [negb fst]; [|tauto]. destruct (value s); cbn; tauto.
   - destruct (is_idle (phase_of s t)); cbn [negb fst]; [|tauto].
     destruct (at_max s); cbn [fst]; [tauto|]. pose proof (rel_core_params s).
     destruct (mem t (held s)); cbn; tauto.
-  - destruct (phase_of s t) as [| |f]; [cbn; tauto| |].
+  - destruct (phase_of s t) as [| |f|]; [cbn; tauto| | |].
     + destruct (mustc s t); [|cbn; tauto]. pose proof (cancel_release_params (leave s t)). cbn in *. tauto.
     + destruct (futs s f); [cbn; tauto| |cbn; tauto].
       destruct (mustc s t); [|cbn; tauto]. pose proof (cancel_release_params (leave s t)). cbn in *. tauto.
-  - destruct (phase_of s t) as [| |f]; [cbn; tauto|cbn; tauto|]. destruct (futs s f); cbn; tauto.
+    + destruct (mustc s t); cbn; tauto.
+  - destruct (phase_of s t) as [| |f|]; [cbn; tauto|cbn; tauto| |cbn; tauto]. destruct (futs s f); cbn; tauto.
+  - destruct (is_idle (phase_of s t)); cbn; tauto.
+  - destruct (phase_of s t) as [| |f|]; try (cbn; tauto).
+    destruct (mustc s t); [cbn; tauto|]. pose proof (acq_body_params (leave s t) t). cbn in *. tauto.
 Qed.
 
 Lemma reach_params fa iv mx s : reach fa iv mx s -> init0 s = iv /\ maxv s = mx /\ fast s = fa.
@@ -80,7 +98,8 @@ Qed.
 (* the ghost `held`/`extra` are what they claim: a returned acquire adds one entry for the caller, an accepted
    release by a holder removes one of its entries, an accepted release by a non-holder is an extra release,
    nothing else changes them *)
-Definition acquire_op (o : op) (t : tid) : Prop := o = AcqBegin t \/ o = AcqNowait t \/ o = Resume t.
+Definition acquire_op (o : op) (t : tid) : Prop :=
+  o = AcqBegin t \/ o = AcqNowait t \/ o = Resume t \/ o = CkPass t.
 
 Theorem sem_held_tracks_returns s o s' r : step s o = (s', r) ->
   match r with
@@ -92,10 +111,10 @@ Theorem sem_held_tracks_returns s o s' r : step s o = (s', r) ->
   | _ => held s' = held s /\ extra s' = extra s
   end.
 Proof.
-  destruct o as [t|t|t|t|t]; cbn [step]; intros H.
+  destruct o as [t|t|t|t|t|t|t]; cbn [step]; intros H.
   - destruct (is_idle (phase_of s t)); cbn [negb] in H; [|injection H as <- <-; tauto].
-    destruct (value s), (waiters s); try destruct (fast s); injection H as <- <-; cbn; try tauto.
-    left. exists t. unfold acquire_op. tauto.
+    pose proof (acq_body_params s t) as (_ & _ & _ & Ee & _ & Hh). rewrite H in Ee, Hh. cbn [fst snd] in *.
+    destruct r; try contradiction; [|tauto]. left. exists t. unfold acquire_op. tauto.
   - destruct (is_idle (phase_of s t)); cbn [negb] in H; [|injection H as <- <-; tauto].
     destruct (value s); injection H as <- <-; cbn; [tauto|]. left. exists t. unfold acquire_op. tauto.
   - destruct (is_idle (phase_of s t)); cbn [negb] in H; [|injection H as <- <-; tauto].
@@ -108,7 +127,7 @@ Proof.
                   match r with RDone => False | _ => held s' = held s0 /\ extra s' = extra s0 end).
     { intros s0 E1 E2. pose proof (cancel_release_params s0) as (_ & _ & _ & Eh & Ee & _).
       rewrite E1 in Eh, Ee. unfold cancel_release in E2. destruct (at_max s0); cbn in E2; subst r; tauto. }
-    destruct (phase_of s t) as [| |f]; [injection H as <- <-; tauto| |].
+    destruct (phase_of s t) as [| |f|]; [injection H as <- <-; tauto| | |].
     + destruct (mustc s t).
       * specialize (Hcr (leave s t)). rewrite H in Hcr. specialize (Hcr eq_refl eq_refl).
         destruct r; cbn in Hcr; tauto.
@@ -118,7 +137,14 @@ Proof.
       * specialize (Hcr (leave s t)). rewrite H in Hcr. specialize (Hcr eq_refl eq_refl).
         destruct r; cbn in Hcr; tauto.
       * injection H as <- <-. left. exists t. unfold acquire_op. cbn. tauto.
-  - destruct (phase_of s t) as [| |f]; [| |destruct (futs s f)]; injection H as <- <-; cbn; tauto.
+    + destruct (mustc s t); injection H as <- <-; cbn; tauto.
+  - destruct (phase_of s t) as [| |f|]; [| |destruct (futs s f)|]; injection H as <- <-; cbn; tauto.
+  - destruct (is_idle (phase_of s t)); cbn [negb] in H; injection H as <- <-; cbn; tauto.
+  - destruct (phase_of s t) as [| |f|]; try (injection H as <- <-; tauto).
+    destruct (mustc s t); [injection H as <- <-; cbn; tauto|].
+    pose proof (acq_body_params (leave s t) t) as (_ & _ & _ & Ee & _ & Hh). rewrite H in Ee, Hh.
+    cbn [fst snd leave held extra] in *.
+    destruct r; try contradiction; [|tauto]. left. exists t. unfold acquire_op. tauto.
 Qed.
 
 (* ---------- 2. a positive value with waiting tasks never occurs ---------- *)
@@ -137,21 +163,25 @@ Theorem sem_arrival_log_append_only s o : exists l, enq (fst (step s o)) = enq s
 Proof.
   assert (Hnil : forall s', enq s' = enq s -> exists l, enq s' = enq s ++ l).
   { intros s' E. exists []. now rewrite app_nil_r. }
-  destruct o as [t|t|t|t|t]; cbn [step].
-  - destruct (is_idle _); cbn [negb]; [|now apply Hnil].
-    destruct (value s), (waiters s); try destruct (fast s); cbn [fst enq];
-      try (now apply Hnil); eexists; reflexivity.
+  destruct o as [t|t|t|t|t|t|t]; cbn [step].
+  - destruct (is_idle _); cbn [negb fst]; [|now apply Hnil].
+    pose proof (acq_body_params s t) as (_ & _ & _ & _ & E & _). exact E.
   - destruct (is_idle _); cbn [negb]; [|now apply Hnil]. destruct (value s); now apply Hnil.
   - destruct (is_idle _); cbn [negb]; [|now apply Hnil].
     destruct (at_max s); [now apply Hnil|]. pose proof (rel_core_params s) as (_&_&_&_&_&_&_&E&_).
     destruct (mem t (held s)); apply Hnil; cbn; exact E.
-  - destruct (phase_of s t) as [| |f]; [now apply Hnil| |].
+  - destruct (phase_of s t) as [| |f|]; [now apply Hnil| | |].
     + destruct (mustc s t); [|now apply Hnil].
       apply Hnil. pose proof (cancel_release_params (leave s t)) as (_&_&_&_&_&_&E). exact E.
     + destruct (futs s f); [now apply Hnil| |now apply Hnil].
       destruct (mustc s t); [|now apply Hnil].
       apply Hnil. pose proof (cancel_release_params (leave s t)) as (_&_&_&_&_&_&E). exact E.
-  - destruct (phase_of s t) as [| |f]; [| |destruct (futs s f)]; now apply Hnil.
+    + destruct (mustc s t); now apply Hnil.
+  - destruct (phase_of s t) as [| |f|]; [| |destruct (futs s f)|]; now apply Hnil.
+  - destruct (is_idle _); now apply Hnil.
+  - destruct (phase_of s t) as [| |f|]; try now apply Hnil.
+    destruct (mustc s t); [now apply Hnil|].
+    pose proof (acq_body_params (leave s t) t) as (_ & _ & _ & _ & E & _). exact E.
 Qed.
 
 (* release() gives the permit to the first waiter whose future is not cancelled; if there is none, all
@@ -171,18 +201,35 @@ Proof.
 Qed.
 
 (* a permit is taken directly only when one is free, and then nobody is waiting (no barging) *)
+Lemma acq_body_grant s t : (value s > 0 -> waiters s = []) ->
+  length (held (fst (acq_body s t))) + length (infl (fst (acq_body s t))) > length (held s) + length (infl s) ->
+  value s = S (value (fst (acq_body s t))) /\ waiters s = [].
+Proof.
+  intros Hpos. unfold acq_body.
+  destruct (value s) as [|v] eqn:Ev; [destruct (waiters s); cbn; lia|].
+  rewrite (Hpos ltac:(lia)). destruct (fast s); cbn; auto.
+Qed.
+
+(* also for the acquire() that had to sit through a cancellation check that yielded (CkPass): test and
+   decrement happen in that one segment, on the state as it is THEN *)
 Theorem sem_grant_only_if_free fa iv mx s t o : max_ok iv mx -> reach fa iv mx s ->
-  o = AcqBegin t \/ o = AcqNowait t ->
+  o = AcqBegin t \/ o = AcqNowait t \/ o = CkPass t ->
   length (held (fst (step s o))) + length (infl (fst (step s o))) > length (held s) + length (infl s) ->
   value s = S (value (fst (step s o))) /\ waiters s = [].
 Proof.
   intros Hm R Ho. pose proof (sem_value_pos_no_waiters _ _ _ _ Hm R) as Hpos.
-  destruct Ho as [-> | ->]; cbn [step].
-  - destruct (is_idle _); cbn [negb fst]; [|lia].
-    destruct (value s) as [|v] eqn:Ev; [destruct (waiters s); cbn; lia|].
-    rewrite (Hpos ltac:(lia)). destruct (fast s); cbn; auto.
+  destruct Ho as [-> | [-> | ->]]; cbn [step].
+  - destruct (is_idle _); cbn [negb fst]; [|lia]. now apply acq_body_grant.
   - destruct (is_idle _); cbn [negb fst]; [|lia].
     destruct (value s) as [|v] eqn:Ev; cbn; [lia|]. intros _. split; [reflexivity|apply Hpos; lia].
+  - destruct (phase_of s t) as [| |f|] eqn:Ep; cbn [fst]; try lia.
+    pose proof (I_struct s (reach_inv _ _ _ _ Hm R)) as St.
+    assert (Hni : ~ In t (infl s)) by (apply neutral_not_infl; [exact St|right; exact Ep]).
+    destruct (mustc s t); cbn [fst].
+    + cbn. rewrite (remove_one_notin t (infl s) Hni). lia.
+    + intros H. destruct (acq_body_grant (leave s t) t) as [G1 G2]; [exact Hpos| |exact (conj G1 G2)].
+      replace (infl (leave s t)) with (infl s) by (cbn; now rewrite remove_one_notin).
+      exact H.
 Qed.
 
 (* ---------- 4. cancellation neither leaks nor duplicates a permit ---------- *)
@@ -243,6 +290,71 @@ Proof.
     pose proof (rel_core_params (leave s t)) as (_&_&_&_&_&Ed&_). cbn in Hne, Hcnt, Ed. unfold tid in *.
     repeat split; auto; try lia. intros E. apply (Hne _ E). reflexivity.
 Qed.
+
+(* ---------- 4'. the cancellation check at the start of acquire() (F53) ---------- *)
+(* acquire() called while a cancelled scope is visible: the check yields before anything of the semaphore is read
+   or written - on the uncontended AND on the contended path, in every state *)
+Theorem sem_check_yield_noeffect s t : phase_of s t = Idle ->
+  step s (AcqBeginC t) = (set_phase s t CkYield, RBlocked) /\
+  value (set_phase s t CkYield) = value s /\ waiters (set_phase s t CkYield) = waiters s /\
+  futs (set_phase s t CkYield) = futs s /\ held (set_phase s t CkYield) = held s /\
+  infl (set_phase s t CkYield) = infl s /\ enq (set_phase s t CkYield) = enq s.
+Proof. intros Hp. cbn [step]. rewrite Hp. cbn. auto 10. Qed.
+
+(* the delivered cancellation is raised out of acquire() with nothing touched (also when the scope was cut off in
+   the same cycle: the pending Task.cancel() wins) *)
+Theorem sem_check_cancelled_noeffect s t : phase_of s t = CkYield -> mustc s t = true ->
+  step s (Resume t) = (leave s t, RCancelled) /\ step s (CkPass t) = (leave s t, RCancelled) /\
+  value (leave s t) = value s /\ waiters (leave s t) = waiters s /\ futs (leave s t) = futs s /\
+  held (leave s t) = held s /\ enq (leave s t) = enq s /\ phase_of (leave s t) t = Idle.
+Proof.
+  intros Hp Hm. cbn [step]. rewrite Hp, Hm. cbn. rewrite upd_same. auto 10.
+Qed.
+
+(* without a pending cancellation the check spins: a further yield, nothing changes *)
+Theorem sem_check_spin s t : phase_of s t = CkYield -> mustc s t = false -> step s (Resume t) = (s, RBlocked).
+Proof. intros Hp Hm. cbn [step]. now rewrite Hp, Hm. Qed.
+
+(* the honest HEAD statement: when the check returns normally after having yielded (the cancelled scope was cut
+   off meanwhile), acquire() continues EXACTLY like a fresh acquire() issued at that moment - the test
+   `value > 0 and not waiters` and the decrement run in this one segment, on the state as it is now; there is no
+   yield between test and decrement *)
+Theorem sem_check_pass_is_fresh_acquire s t : phase_of s t = CkYield -> mustc s t = false ->
+  step s (CkPass t) = step (leave s t) (AcqBegin t) /\
+  value (leave s t) = value s /\ waiters (leave s t) = waiters s /\ held (leave s t) = held s.
+Proof.
+  intros Hp Hm. cbn [step]. rewrite Hp, Hm. cbn [leave phase_of]. rewrite upd_same. cbn. auto.
+Qed.
+
+(* F53 (fixed in /repo by c2fb7fb): with the old order - test; check; decrement - a task that takes the permit
+   while the check yields is overwritten.  One permit; task 1 calls acquire() under a visible cancelled scope: the
+   test passes and the check yields; task 2 takes the permit (acquire_nowait); the scope is cut off, task 1's
+   check returns and it decrements without looking again (Python: value == -1): two holders of ONE permit, the
+   conservation equation is off by one.  At HEAD task 1 queues instead. *)
+Definition f53_ops : list op := [AcqBeginC 1; AcqNowait 2; CkPass 1; Resume 1].
+
+Theorem sem_check_order_refuted_pinned :
+  exists ops, let s := final step_f53_pinned (init false 1 None) ops in
+    held s = [1; 2] /\ infl s = [] /\ extra s = 0 /\ dropped s = 0 /\ value s = 0 /\
+    length (held s) > 1 + extra s /\
+    value s + length (held s) + length (infl s) + dropped s <> 1 + extra s /\
+    (forall t, t < 3 -> phase_of s t = Idle).
+Proof.
+  exists f53_ops. vm_compute. repeat split; try lia.
+  intros t Ht. do 3 (destruct t as [|t]; [reflexivity|]). lia.
+Qed.
+
+Example f53_fixed_at_head :
+  let s := final step (init false 1 None) [AcqBeginC 1; AcqNowait 2; CkPass 1] in
+  held s = [2] /\ value s = 0 /\ phase_of s 1 = Waiting 0 /\ waiters s = [(1, 0)] /\
+  snd (step (final step (init false 1 None) [AcqBeginC 1; AcqNowait 2]) (CkPass 1)) = RBlocked.
+Proof. vm_compute. auto 10. Qed.
+
+Example ex_check_hyps :
+  let s := final step (init false 1 None) [AcqBeginC 1] in
+  phase_of (init false 1 None) 1 = Idle /\ phase_of s 1 = CkYield /\ mustc s 1 = false /\
+  mustc (fst (step s (Cancel 1))) 1 = true /\ phase_of (fst (step s (Cancel 1))) 1 = CkYield.
+Proof. vm_compute. auto 10. Qed.
 
 (* ---------- 5. releasing beyond max_value is rejected and changes nothing ---------- *)
 Theorem sem_release_beyond_max_rejected s t :
@@ -333,4 +445,10 @@ Example ex_grant_only_if_free_hyp2 :
   length (held (fst (step s (AcqBegin 1)))) + length (infl (fst (step s (AcqBegin 1))))
   > length (held s) + length (infl s).
 Proof. vm_compute. repeat split; lia. Qed.
+
+Example ex_grant_only_if_free_hyp_ckpass :
+  let s := final step (init false 1 None) [AcqBeginC 1] in
+  length (held (fst (step s (CkPass 1)))) + length (infl (fst (step s (CkPass 1))))
+  > length (held s) + length (infl s).
+Proof. vm_compute. lia. Qed.
 
